@@ -197,6 +197,21 @@ def run(ctx):
                     ctx.check(okidx, "RECORD", "C02:RECORD:store-index:%s#%d" % (f.name, st),
                               "buffer stored at the node's own anchor id (%s)" % idx, "anchor buffer stored at `%s`, which is not the anchor id of the recorded node" % idx, config, ctx.where(f, b))
         ctx.floor("RECORD.stores", st, 2, config)
+        # ---- TRANSPARENT: attaching an anchor never changes the node's own value — the scalar event built from a parser
+        # scalar takes value, style and tag from the parser event unconditionally (no rewrite that depends on the anchor)
+        nt = 0
+        for b, i, adt, var, fl, ops, s_ in aggregates(ni):
+            if adt == "de::Ev" and var == "Scalar" and render(ops[fl.index("anchor")]) == "anchor_id" and render(ops[fl.index("tag")]) != "tags::SfTag::Null{}":
+                with ni.deep():
+                    st = render(ni.sym_operand(s_["rv"]["ops"][fl.index("style")]))
+                    vl = render(ni.sym_operand(s_["rv"]["ops"][fl.index("value")]))
+                if "recursive_anchor_in_progress" in st:
+                    continue
+                nt += 1
+                ctx.check("phi(" not in st and "ScalarStyle::" not in st, "TRANSPARENT", "C02:TRANSPARENT:scalar-style", "the delivered scalar's style is the parser's, whatever the anchor",
+                          "the style of a parser scalar is rewritten on some path before delivery (`%s`): an anchored empty quoted string `&a \"\"` becomes a plain empty scalar, i.e. null" % st[:100], config, ctx.where(ni, b))
+                ctx.check("phi(" not in vl, "TRANSPARENT", "C02:TRANSPARENT:scalar-value", "the delivered scalar's text is the parser's", "the text of a parser scalar is rewritten on some path before delivery", config, ctx.where(ni, b))
+        ctx.floor("TRANSPARENT.scalar-sites", nt, 1, config)
         # ---- ORDER: parser pulled only when the replay stack is empty
         pulls = [b for b, t in ni.calls() if fx.callee(t) == "live_events::SaphyrParser::next"]
         empty_edges = []
